@@ -44,6 +44,13 @@ class EASRadio:
         """
         EAS radio output from ZHAires lookup tables
         """
+        # work in double whatever the caller passes (squared path lengths overflow half
+        # precision, and the view angles below would inherit an integer dtype)
+        beta, altDec, lenDec, theta, pathLen, showerEnergy = (
+            np.asarray(x, dtype=np.float64)
+            for x in (beta, altDec, lenDec, theta, pathLen, showerEnergy)
+        )
+
         FreqRange = (
             self.config.detector.radio.low_frequency,
             self.config.detector.radio.high_frequency,
